@@ -16,6 +16,17 @@ classes were requested first or how they were combined in incremental re-parses"
  R3  candidate filtering uses the active-class mask (``parser_class &
      parser_classes``) for block and statement candidates alike.
 Not decided: the 1st sentence (regex language vs Fortran grammar).
+ R4  re-use of an already created unit is scope-local: ``ModulePattern.match`` and
+     ``SubroutineFunctionPattern.match`` retrieve an existing ``Module`` /
+     ``Subroutine`` object from the symbol table of the *current* scope only
+     (``symbol_attrs[name]`` / ``.get`` / ``lookup(.., recursive=False)``); a
+     recursive ``lookup(name)`` finds a homonymous procedure of an enclosing scope
+     and re-initialises that object (an internal procedure and a module procedure
+     of the same name become one object).
+ R5  per-entry state does not leak across the entries of one statement: inside a
+     loop over the matched entries, a variable defined before the loop is not
+     re-bound to a clone of itself (``type_ = type_.clone(use_name=...)`` makes a
+     rename's ``use_name`` stick to every following plain entry).
 """
 import ast
 import itertools
@@ -204,8 +215,71 @@ def run(ctx):
         (ctx.judge('R3', f'Pattern.{meth}', facts={'filters_directly': direct}) if ok else
          ctx.violation('R3', f'Pattern.{meth}', f.where, 'candidates are not filtered by the active parser classes'))
 
+    # ---- R4
+    ctx.rule('R4', 'ModulePattern.match / SubroutineFunctionPattern.match fetch the existing unit through a non-recursive symbol-table access')
+    ctx.rule('R5', 'no variable defined before a loop over matched entries is re-bound to a clone of itself inside that loop (regex.py match methods)')
+    rmod = m.module_by_path(RX) if 'RX' in globals() else m.module_by_path('loki/frontend/regex.py')
+    n4 = 0
+    for cn, attr in (('ModulePattern', 'module'), ('SubroutineFunctionPattern', 'procedure')):
+        C_ = rmod.classes.get(cn)
+        fm = C_.function('match') if C_ is not None else None
+        if fm is None:
+            raise AnalysisError(f'{cn}.match vanished')
+        # the local whose .dtype.<attr> yields the existing unit
+        holders = set()
+        for a_ in ast.walk(fm.node):
+            if isinstance(a_, ast.Attribute) and a_.attr == 'dtype' and isinstance(a_.value, ast.Name):
+                holders.add(a_.value.id)
+        got = False
+        for n_ in ast.walk(fm.node):
+            if isinstance(n_, ast.Assign) and isinstance(n_.targets[0], ast.Name) and n_.targets[0].id in holders \
+                    and 'symbol_attrs' in ast.unparse(n_.value):
+                got = True
+                n4 += 1
+                v = n_.value
+                local = isinstance(v, ast.Subscript) or (isinstance(v, ast.Call) and isinstance(v.func, ast.Attribute) and (
+                    v.func.attr == 'get' or (v.func.attr == 'lookup' and any(k.arg == 'recursive' and ast.unparse(k.value) == 'False'
+                                                                              for k in v.keywords))))
+                inst = f'{cn}.match:existing-unit'
+                if local:
+                    ctx.judge('R4', inst, facts={'access': ast.unparse(v)})
+                else:
+                    ctx.violation('R4', inst, f'{rmod.relpath}:{n_.lineno}',
+                                  f'the already created unit is looked up with `{ast.unparse(v)}`, which also searches the enclosing scopes: a '
+                                  f'{attr} of the same name in a parent scope is taken for this one and re-initialised (an internal '
+                                  f'procedure X and a module procedure X share one object and one set of dependencies)')
+        if not got:
+            raise AnalysisError(f'{cn}.match: retrieval of the existing unit from symbol_attrs not found')
+    ctx.floor('R4', 'existing-unit retrievals', n4, 2)
+    n5 = 0
+    for C_ in rmod.classes.values():
+        fm = C_.function('match') if 'match' in C_.members else None
+        if fm is None or fm.cls is not C_:
+            continue
+        for lp in [x for x in ast.walk(fm.node) if isinstance(x, ast.For)]:
+            n5 += 1
+            before = {t.id for n_ in ast.walk(fm.node) if isinstance(n_, ast.Assign) and n_.lineno < lp.lineno
+                      for t in n_.targets if isinstance(t, ast.Name)}
+            for a_ in ast.walk(lp):
+                if isinstance(a_, ast.Assign) and isinstance(a_.targets[0], ast.Name) and a_.targets[0].id in before \
+                        and isinstance(a_.value, ast.Call) and isinstance(a_.value.func, ast.Attribute) and a_.value.func.attr == 'clone' \
+                        and ast.unparse(a_.value.func.value) == a_.targets[0].id:
+                    ctx.violation('R5', f'{C_.name}.match:{a_.targets[0].id}:loop-carried-clone', f'{rmod.relpath}:{a_.lineno}',
+                                  f'`{ast.unparse(a_)}` re-binds `{a_.targets[0].id}` (defined before the loop over the matched entries) to a '
+                                  f'modified clone of itself: the modification made for one entry stays in force for all following '
+                                  f'entries (use consts, only: rpi => pi, rg gives rg the use_name of pi)')
+    ctx.floor('R5', 'loops in match methods', n5, 3)
+    ctx.judge('R5', 'no loop-carried self-clone in match methods', nontrivial=True)
+
 
 MUTANTS = [
+    Mutant('existing-routine-recursive-lookup', 'loki/frontend/regex.py',
+           "        if scope is not None and name in scope.symbol_attrs:\n            proc_type = scope.symbol_attrs[name]  # Look-up only in current scope!",
+           "        if scope is not None:\n            proc_type = scope.symbol_attrs.lookup(name)", expect=('R4', 'SubroutineFunctionPattern.match')),
+    Mutant('import-use-name-leaks', 'loki/frontend/regex.py',
+           "                    if len(s) == 1:\n                        symbols += [sym.Variable(name=s[0], type=type_, scope=scope)]\n                    else:\n                        symbols += [sym.Variable(name=s[0], type=type_.clone(use_name=s[1]), scope=scope)]",
+           "                    if len(s) > 1:\n                        type_ = type_.clone(use_name=s[1])\n                    symbols += [sym.Variable(name=s[0], type=type_, scope=scope)]",
+           expect=('R5', 'loop-carried-clone')),
     Mutant('join-dropped', PU, "            parser_classes = parser_classes | self._parser_classes\n", "", expect=('R1', 'join'), quick=False),
     Mutant('join-is-intersection', PU, "            parser_classes = parser_classes | self._parser_classes\n",
            "            parser_classes = parser_classes & self._parser_classes\n", expect=('R1', 'join'), quick=True),
